@@ -152,6 +152,15 @@ func lengthCandidates(r *rand.Rand, right string) []passCand {
 	for _, n := range []int{41, 56, 80} {
 		cs = append(cs, passCand{fmt.Sprintf("len%d", n), right + fill(n-len(right))})
 	}
+	// right‖NUL…NUL up to the hash-size / block-size boundaries of the KDF's HMAC (a key shorter than the block is
+	// zero-padded to it, so these candidates are the SAME HMAC key as the right passphrase; only an explicit
+	// guard refuses them) and one byte beyond (seed C05-3: the guard skipped candidates of exactly 64 bytes)
+	cs = append(cs, passCand{"nul2", right + "\x00\x00"})
+	for _, n := range []int{32, 63, 64, 65, 128} {
+		if n > len(right) {
+			cs = append(cs, passCand{fmt.Sprintf("nulto%d", n), right + strings.Repeat("\x00", n-len(right))})
+		}
+	}
 	return cs
 }
 
